@@ -107,3 +107,75 @@ Qed.
 
 Theorem code_pass_strip : forall m, escfree m -> strip SNormal (code_pass m) = m.
 Proof. intros m H. apply (dpass_strip BQ [57; 53] [48]); [discriminate|reflexivity|reflexivity|exact H]. Qed.
+
+(* ---------- stronger: a delimiter pass is invisible to strip on EVERY byte string, from every state ---------- *)
+(* no well-formedness of the input is needed: the opening escape is inserted right before a delimiter, the closing one right
+   after a delimiter, and a delimiter (backtick, double quote) is none of ESC, `[`, a parameter byte, `m` -- reading it always
+   leaves the strip automaton in SNormal, and an escape sequence in front of it is dropped from whatever state *)
+Definition safe (c : N) : Prop := c <> ESC /\ c <> LBR /\ is_param c = false /\ c <> CM.
+
+Lemma strip_safe : forall s d r, safe d -> strip s (d :: r) = flush s ++ d :: strip SNormal r.
+Proof.
+  intros s d r [H1 [H2 [H3 H4]]]. destruct s as [| |b]; cbn [strip flush app].
+  - destruct (N.eqb_spec d ESC); [contradiction|reflexivity].
+  - destruct (N.eqb_spec d LBR); [contradiction|]. destruct (N.eqb_spec d ESC); [contradiction|reflexivity].
+  - rewrite H3. destruct (N.eqb_spec d CM); [contradiction|]. destruct (N.eqb_spec d ESC); [contradiction|reflexivity].
+Qed.
+
+Lemma strip_esc_any : forall s code b, forallb is_param code = true -> strip s (esc code ++ b) = flush s ++ strip SNormal b.
+Proof.
+  intros s code b H. unfold esc. destruct s as [| |buf]; cbn [app strip flush].
+  - rewrite N.eqb_refl. cbn [strip]. rewrite N.eqb_refl. rewrite <- app_assoc. cbn [app]. apply strip_csi. exact H.
+  - change (ESC =? LBR) with false. cbn iota. rewrite N.eqb_refl. cbn [strip]. rewrite N.eqb_refl.
+    rewrite <- app_assoc. cbn [app]. rewrite strip_csi by exact H. reflexivity.
+  - change (is_param ESC) with false. cbn iota. change (ESC =? CM) with false. cbn iota. rewrite N.eqb_refl.
+    cbn [strip]. rewrite N.eqb_refl. rewrite <- app_assoc. cbn [app]. rewrite strip_csi by exact H. reflexivity.
+Qed.
+
+Lemma strip_cong : forall buf Y Y', (forall s, strip s Y = strip s Y') -> forall s, strip s (buf ++ Y) = strip s (buf ++ Y').
+Proof.
+  induction buf as [|c buf IH]; intros Y Y' H s; [apply H|].
+  cbn [app]. destruct s as [| |b]; cbn [strip]; repeat match goal with |- context [if ?x then _ else _] => destruct x end;
+    rewrite ?(IH Y Y' H); reflexivity.
+Qed.
+
+Lemma dpass_invisible : forall d co cc, safe d -> forallb is_param co = true -> forallb is_param cc = true ->
+  forall l,
+  (forall s, strip s (dpass d (esc co) (esc cc) Outside l) = strip s l) /\
+  (forall buf s, strip s (dpass d (esc co) (esc cc) (Inside buf) l) = strip s (d :: buf ++ l)).
+Proof.
+  intros d co cc Hd Hco Hcc. induction l as [|c r [IHo IHi]]; split.
+  - reflexivity.
+  - intros buf s. cbn [dpass]. rewrite app_nil_r. reflexivity.
+  - intros s. cbn [dpass]. destruct (N.eqb_spec c d) as [E|E].
+    + subst c. rewrite IHi. reflexivity.
+    + change (c :: dpass d (esc co) (esc cc) Outside r) with ([c] ++ dpass d (esc co) (esc cc) Outside r).
+      change (c :: r) with ([c] ++ r). apply strip_cong. exact IHo.
+  - intros buf s. cbn [dpass]. destruct (N.eqb_spec c d) as [E|E].
+    + subst c. rewrite strip_esc_any by exact Hco.
+      rewrite (strip_safe s d (buf ++ d :: r) Hd).
+      rewrite (strip_safe SNormal d _ Hd). cbn [flush app]. f_equal. f_equal.
+      apply strip_cong. intros s'. rewrite !(strip_safe s' d) by exact Hd. f_equal. f_equal.
+      rewrite strip_esc_any by exact Hcc. cbn [flush app]. apply IHo.
+    + destruct (N.eqb_spec c NL) as [E'|E'].
+      * change (d :: buf ++ c :: dpass d (esc co) (esc cc) Outside r) with ((d :: buf) ++ [c] ++ dpass d (esc co) (esc cc) Outside r).
+        change (d :: buf ++ c :: r) with ((d :: buf) ++ [c] ++ r).
+        apply strip_cong. intros s'. apply strip_cong. exact IHo.
+      * rewrite IHi. rewrite <- app_assoc. reflexivity.
+Qed.
+
+Lemma strip_escfree : forall m, escfree m -> strip SNormal m = m.
+Proof. intros m H. rewrite <- (app_nil_r m) at 1. rewrite strip_escfree_app by exact H. cbn [strip flush]. apply app_nil_r. Qed.
+
+Lemma safe_BQ : safe BQ. Proof. repeat split; discriminate. Qed.
+Lemma safe_DQ : safe DQ. Proof. repeat split; discriminate. Qed.
+
+(* the two delimiter passes of PrettyPrintErrorMessage composed: stripping gives back the plain message *)
+Theorem code_then_path_strip : forall m, escfree m -> strip SNormal (path_pass (code_pass m)) = m.
+Proof.
+  intros m H. unfold path_pass, code_pass.
+  rewrite (proj1 (dpass_invisible DQ [51; 54] [48] safe_DQ eq_refl eq_refl _)).
+  rewrite (proj1 (dpass_invisible BQ [57; 53] [48] safe_BQ eq_refl eq_refl _)).
+  apply strip_escfree. exact H.
+Qed.
+Print Assumptions code_then_path_strip.
